@@ -377,6 +377,27 @@ func (c *FnCtx) instr(in ssa.Instruction, bv *BlockVC) {
 		c.storeLoc(st, l, Val{T: c.zeroOf(pt), S: c.sortOf(pt), GT: pt})
 		c.env[x] = &Bind{V: Val{T: ref, S: SInt, GT: x.Type()}}
 		c.checkAllocFieldInvs(x, ref)
+		if c.con != nil && c.con.AtNew != nil {
+			tn := tstr(pt)
+			if i := strings.LastIndex(tn, "."); i >= 0 {
+				tn = tn[i+1:]
+			}
+			matched := false
+			for _, cl := range c.con.AtNew[tn] {
+				matched = true
+				if !clauseActive(cl, c.prop) {
+					continue
+				}
+				env := c.specEnvFor(c.cur, c.entry, nil)
+				f := env.trGoal(cl.E)
+				c.flushFacts(env)
+				ob := c.assert(c.curItems, "requires", fmt.Sprintf("atnew:%s#%d", tn, cl.Ord), "", f, x, cl.Tags, len(cl.Tags) == 0)
+				ob.Text = cl.Text
+			}
+			if matched {
+				c.atNewSeen[tn] = true
+			}
+		}
 		for _, ni := range c.V.DB.NewInvs {
 			if tstr(pt) == ni.Type {
 				env := &SEnv{c: c, st: c.cur, old: c.entry, vars: map[string]Val{"v": {T: ref, S: SInt, GT: x.Type()}}, bound: map[string]bool{}}
